@@ -847,7 +847,12 @@ impl<'a> LiveEvents<'a> {
             }
             let breached = report.breached.clone();
             if let Some(callback) = &self.budget_report_cb {
-                callback.borrow_mut()(report);
+                // Every clone of the options shares the callback. One that is running right now -
+                // it made a call of its own with a clone of the options it is registered in - is
+                // not called again from inside itself (and the cell is not borrowed twice).
+                if let Ok(mut callback) = callback.try_borrow_mut() {
+                    callback(report);
+                }
             }
             if let Some(breach) = breached {
                 return Err(budget_error(breach).with_location(self.last_location));
